@@ -957,6 +957,9 @@ class TermCanvas(Canvas):
 
         x, y = position
 
+        # anything pushed past the edge of the line is discarded
+        chars = min(chars, self.width)
+
         while chars > 0:
             self.term[y].insert(x, char_spec)
             self.term[y].pop()
@@ -975,6 +978,9 @@ class TermCanvas(Canvas):
             chars = 1
 
         x, y = position
+
+        # the line is all blank from 'x' once a full width is removed
+        chars = min(chars, self.width)
 
         while chars > 0:
             self.term[y].pop(x)
@@ -995,6 +1001,9 @@ class TermCanvas(Canvas):
         if lines == 0:
             lines = 1
 
+        # anything pushed past the edge of the screen is discarded
+        lines = min(lines, self.height)
+
         while lines > 0:
             self.term.insert(row, self.empty_line())
             self.term.pop(self.scrollregion_end)
@@ -1013,6 +1022,9 @@ class TermCanvas(Canvas):
 
         if lines == 0:
             lines = 1
+
+        # the region is all blank once a full height is removed
+        lines = min(lines, self.height)
 
         while lines > 0:
             self.term.pop(row)
